@@ -37,3 +37,10 @@ CHECKS["C07"] = {
   "text": "Every value of per-field ladders placed on and around the PDB column limits (coordinates, B-factor, occupancy, charge, ids, name lengths, atom-name x element alignment, box) is written at every location of 1-3 atom arrays and small stacks in decimal and hybrid-36 mode; the written records are sliced at the standard columns (layout law), read back (round-trip law), or must be refused with nothing written (refusal law); every hybrid-36 integer is encoded and decoded against an odometer model. ~3.0 M cases quick, ~90 M thorough.",
   "note": "Trusts mc/models/pdbfmt.py (column tables of the wwPDB format, hybrid-36 positional definition, decimal rounding via the decimal module, textbook cell geometry) and the synthetic component dictionary for bond types restored on reading.",
 }
+CHECKS["C13"] = {
+  "engine": "E2-input-enumerator",
+  "technique": "complete enumeration of sequences (length 1..6/8), sequence starts, feature/location sets over all positions incl. overhanging ones, all slices [a:b],[a:],[:b],[:], all feature indices, against a per-base coverage model",
+  "ref": "DESIGN.md section 4 C13; notes/C13.md",
+  "text": "Every annotation of the bounded shapes (1-3 features, 1-3 locations, both strands, defect flags) on every sequence length and start is sliced with every slice form and compared base by base with a model in which each location is the set of positions it covers; feature get/set, reverse complement (single against a mirror model, double against the original), copies and container operations are enumerated likewise. ~8.8 M cases quick, ~36 M thorough.",
+  "note": "Trusts the per-base model in props/c13.py written from the property statement; 2 features x 2 locations each is replaced by 1 feature x 2-3 locations plus 2-3 features x 1 location.",
+}
